@@ -610,7 +610,7 @@ func (ld *Layerdefs) mountOne(layer *Layerinfo) error {
 		return err
 	}
 	ld.findLayerstate(layer)
-	return nil
+	return layer.errorIfError()
 }
 
 
